@@ -124,8 +124,14 @@ def run_join(src, tgt, mode, agg, shape_variant, source_delete, wildcard):
         ds = Flow(*links).datastream()
         out = [[dict(r) for r in res] for res in ds.res_iter]
         names = [r['name'] for r in ds.dp.descriptor['resources']]
+        fnames = {r['name']: [f['name'] for f in r['schema']['fields']] for r in ds.dp.descriptor['resources']}
     if names != (['tgt'] if source_delete else ['src', 'tgt']):
         raise AssertionError('resources after join: %s' % names)
+    # descriptors: a source that is kept keeps its own fields; the target gains exactly the joined field
+    if not source_delete and fnames['src'] != ['k', 'v']:
+        raise AssertionError('descriptor of the kept source altered by join: %s' % fnames['src'])
+    if fnames['tgt'] != ['k', 't'] + [xname] and not wildcard:
+        raise AssertionError('descriptor of the target after join: %s' % fnames['tgt'])
     if not source_delete and out[0] != S:
         raise AssertionError('source resource altered by join(source_delete=False)')
     rows = out[-1]
